@@ -21,6 +21,13 @@ package main
 //	                the value keyAt(index) of the key variable (keyAtOr(index,k) when the variable held k before).
 //	pure calls      len, append (a flattened cat(…)), make, slice and map literals, `+`/`-`/`<`/`>`, and the three
 //	                getters Raw / GetFormat / GetRawType of a Value or Row that is not the receiver: raw(v), fmt(v), typ(v)
+//	                A call of a function of the package in the MIDDLE of an expression (`r.Get(r.keyAtIndex(index))`) that
+//	                comes down to one value without effect is that value (inlineValue); the walk may RETURN the key from
+//	                inside the loop and a default after it (a helper): the same keyAt(index).
+//	                errors.New("…") is an error that wraps nothing, like fmt.Errorf without %w; the size of make(map…, n)
+//	                and the capacity of make([]T, 0, n) are hints.
+//	delimiters      "the token X is the delimiter n" is delim(X,n), whether the source compares the interface value with
+//	                the constant (`t != json.Delim('{')`) or asserts the type and compares then, both failures alike.
 //	closures        a function literal is the value func{<its tree>}, the variables it captures and assigns bound
 //	                like loop variables (C<n>.v<i>); calling a function held in a local is `call#k call(f,…)`.
 //
@@ -31,7 +38,13 @@ package main
 //
 // What is taken for granted, beyond what value.go lists: Raw / GetFormat / GetRawType of a Value have no effect;
 // a loop's header expression (`range x`, `i < N`) is evaluated once; the buffer MarshalJSON returns next to an
-// error is not looked at (no caller does).
+// error is not looked at (no caller does), nor the slice parsearray returns next to one (handledelim drops it);
+// the clauses of MapTo's type switch name distinct types, so they are listed by type name.
+//
+// Two rewrites are a different algorithm with the same result and have a constructor of their own (accepted by the
+// tie theorems, which are proved for either): MarshalJSON writing the separator in FRONT of every member but the
+// first and appending the closing byte (`.separated`), and a clause of MapTo testing CanX before the cast
+// (`.guardThenCast`).
 //
 // Each tree is then CLASSIFIED: compared with the tree of each shape of Model.RowFactsSyntax, built here from
 // the few parameters read off the tree first (which method is delegated to, which caster, which type is
@@ -223,6 +236,11 @@ func (rx *rowX) callKind(n *ast.CallExpr, st *vstate) string {
 			}
 		}
 	case *ast.SelectorExpr:
+		if id, ok := f.X.(*ast.Ident); ok && f.Sel.Name == "New" && len(n.Args) == 1 {
+			if pn, ok := rx.p.info.Uses[id].(*types.PkgName); ok && pn.Imported().Path() == "errors" {
+				return "errnew"
+			}
+		}
 		if _, ok := pureGetters[f.Sel.Name]; ok && len(n.Args) == 0 && !rx.isReceiverIdent(f.X, st) {
 			if tv, ok := rx.p.info.Types[f.X]; ok && tv.Type != nil {
 				switch rx.x.typeStr(tv.Type) {
@@ -250,6 +268,11 @@ func (rx *rowX) evalCallX(n *ast.CallExpr, st *vstate, pend *[]*vtree, want int)
 		return out, true
 	}
 	switch rx.callKind(n, st) {
+	case "errnew": // errors.New("text") is fmt.Errorf("text") without verb: an error that wraps nothing
+		if tv, ok := rx.p.info.Types[n.Args[0]]; ok && tv.Value != nil {
+			return []string{"ERR(nowrap)"}, true
+		}
+		return nil, false
 	case "getter":
 		sel := ast.Unparen(n.Fun).(*ast.SelectorExpr)
 		a, ok := x.eval(sel.X, st, pend)
@@ -306,8 +329,19 @@ func (rx *rowX) evalCallX(n *ast.CallExpr, st *vstate, pend *[]*vtree, want int)
 			if len(n.Args) == 0 {
 				return nil, false
 			}
-			for _, a := range n.Args[1:] {
-				if s, ok := x.eval(a, st, pend); !ok || s != "lit:0" {
+			// a map's size and a slice's capacity are hints (a constant or the pure `r.l.Len()`); a slice's length must be 0
+			_, isMap := rx.p.info.Types[n.Args[0]].Type.Underlying().(*types.Map)
+			for i, a := range n.Args[1:] {
+				var tmp []*vtree
+				saved := st.ncall
+				s, ok := x.eval(a, st, &tmp)
+				st.ncall = saved
+				if !ok {
+					return nil, false
+				}
+				hint := isMap || i == 1
+				pure := len(tmp) == 0 || (len(tmp) == 1 && tmp[0].fn == ".Len" && eqStrs(tmp[0].args, []string{"R.l"}))
+				if !(hint && pure) && !(len(tmp) == 0 && s == "lit:0") {
 					return nil, false
 				}
 			}
@@ -364,6 +398,9 @@ func (rx *rowX) evalHook(e ast.Expr, st *vstate, pend *[]*vtree) (string, bool, 
 		return st.norm(s) + "." + n.Sel.Name, true, true
 	case *ast.CallExpr:
 		if rx.callKind(n, st) == "" {
+			if s, ok := rx.inlineValue(n, st, pend); ok {
+				return s, true, true
+			}
 			return "", false, false
 		}
 		rs, ok := rx.evalCallX(n, st, pend, 1)
@@ -411,6 +448,80 @@ func (rx *rowX) evalHook(e ast.Expr, st *vstate, pend *[]*vtree) (string, bool, 
 		return rx.closure(n, st)
 	}
 	return "", false, false
+}
+
+// inlineValue: a call, in the middle of an expression, of a function of the package (or a method of the receiver)
+// that comes down to ONE value without effect — `r.keyAtIndex(index)` — is that value.
+func (rx *rowX) inlineValue(call *ast.CallExpr, st *vstate, pend *[]*vtree) (string, bool) {
+	x := rx.x
+	if x.cur == nil {
+		return "", false
+	}
+	key, fd := x.inlinable(call, st, x.cur)
+	if fd == nil || countResults(fd) != 1 {
+		return "", false
+	}
+	savedCall, savedLoop, savedCur, savedInl := st.ncall, rx.nloop, x.cur, x.inlined[key]
+	fail := func() (string, bool) {
+		st.ncall, rx.nloop, x.cur = savedCall, savedLoop, savedCur
+		if !savedInl {
+			delete(x.inlined, key)
+		}
+		return "", false
+	}
+	var tmp []*vtree
+	var args []string
+	for _, a := range call.Args {
+		s, ok := x.eval(a, st, &tmp)
+		if !ok {
+			return fail()
+		}
+		args = append(args, s)
+	}
+	st2 := st.clone()
+	i := 0
+	for _, f := range fd.Type.Params.List {
+		if len(f.Names) == 0 {
+			i++
+			continue
+		}
+		for _, nm := range f.Names {
+			if i >= len(args) {
+				return fail()
+			}
+			if obj := rx.p.info.Defs[nm]; obj != nil && nm.Name != "_" {
+				st2.vars[obj] = args[i]
+			}
+			i++
+		}
+	}
+	if i != len(args) {
+		return fail()
+	}
+	if fd.Recv != nil && len(fd.Recv.List) == 1 && len(fd.Recv.List[0].Names) == 1 {
+		if obj := rx.p.info.Defs[fd.Recv.List[0].Names[0]]; obj != nil {
+			st2.vars[obj] = "R"
+		}
+	}
+	fr2 := &vframe{nres: 1, stack: append(append([]string{}, savedCur.stack...), key)}
+	fr2.ret = func(st3 *vstate, rets []string) *vtree {
+		leaf := &vtree{kind: "leaf"}
+		for _, r := range rets {
+			leaf.rets = append(leaf.rets, st3.norm(r))
+		}
+		return leaf
+	}
+	x.bindNamedResults(fd, st2, fr2)
+	savedLoops := rx.loops
+	rx.loops = nil
+	t := x.exec(fd.Body.List, st2, fr2)
+	rx.loops = savedLoops
+	if t == nil || t.kind != "leaf" || len(t.rets) != 1 || len(t.fields) != 0 || strings.HasPrefix(t.rets[0], "<") {
+		return fail()
+	}
+	x.cur, rx.nloop = savedCur, savedLoop
+	*pend = append(*pend, tmp...)
+	return t.rets[0], true
 }
 
 func (rx *rowX) assignHook(lhs ast.Expr, sym string, st *vstate) (bool, bool) {
@@ -613,6 +724,17 @@ func (rx *rowX) runLoop(header string, id int, body []ast.Stmt, post ast.Stmt, l
 	}
 	rx.nloop = innerLoops
 	after := x.exec(rest, st3, fr)
+	// the positional walk of a helper that RETURNS the key from inside the loop and a default after it
+	if header == fmt.Sprintf("walk(R.l) as E%d", id) && len(carried) == 1 && len(fixed) == 0 && len(pend) == 0 &&
+		after != nil && after.kind == "leaf" && len(after.rets) == 1 && len(after.fields) == 0 &&
+		bodyTree.String() == fmt.Sprintf("if eq(L%d.v0,lit:0) {return [as(E%d.Value,string)]} else {return [<continue>] with {v0=dec(L%d.v0)}}", id, id, id) {
+		idx := st.norm(st.vars[carried[0]])
+		rx.nloop = id - 1
+		if after.rets[0] == `lit:""` {
+			return &vtree{kind: "leaf", rets: []string{"keyAt(" + idx + ")"}}
+		}
+		return &vtree{kind: "leaf", rets: []string{"keyAtOr(" + idx + "," + after.rets[0] + ")"}}
+	}
 	// dead carried variables
 	var leaves []*vtree
 	loopLeaves(bodyTree, &leaves)
@@ -1055,7 +1177,39 @@ func (rx *rowX) run(key string, noInline []string) *vtree {
 		return leaf
 	}
 	x.bindNamedResults(fd, st, fr)
-	return prune(x.exec(fd.Body.List, st, fr).merged())
+	return normDelim(prune(x.exec(fd.Body.List, st, fr).merged()))
+}
+
+var delimEqL = regexp.MustCompile(`^eq\(const\(json\.Delim:(\d+)\),(.+)\)$`)
+var delimEqR = regexp.MustCompile(`^eq\((.+),const\(json\.Delim:(\d+)\)\)$`)
+
+// normDelim: "the token X is the delimiter n" has one spelling, delim(X,n), whether the source compares the
+// interface value with the constant (`t != json.Delim('{')`) or asserts the type first and compares then
+// (`d, ok := t.(json.Delim); !ok || d != '{'`, both failures ending alike).
+func normDelim(t *vtree) *vtree {
+	if t == nil {
+		return t
+	}
+	switch t.kind {
+	case "call":
+		t.next = normDelim(t.next)
+	case "loop":
+		t.then, t.next = normDelim(t.then), normDelim(t.next)
+	case "if":
+		t.then, t.els = normDelim(t.then), normDelim(t.els)
+		if m := delimEqL.FindStringSubmatch(t.cond); m != nil && !strings.HasPrefix(m[2], "as(") {
+			t.cond = "delim(" + m[2] + "," + m[1] + ")"
+		} else if m := delimEqR.FindStringSubmatch(t.cond); m != nil && !strings.HasPrefix(m[1], "as(") {
+			t.cond = "delim(" + m[1] + "," + m[2] + ")"
+		}
+		if strings.HasPrefix(t.cond, "is(") && strings.HasSuffix(t.cond, ",json.Delim)") && t.then != nil && t.then.kind == "if" {
+			X := t.cond[3 : len(t.cond)-len(",json.Delim)")]
+			if m := delimEqR.FindStringSubmatch(t.then.cond); m != nil && m[1] == "as("+X+",json.Delim)" && t.then.els.String() == t.els.String() {
+				return &vtree{kind: "if", cond: "delim(" + X + "," + m[2] + ")", then: t.then.then, els: t.els}
+			}
+		}
+	}
+	return t
 }
 
 // prune: an error that was just built is not nil.
@@ -1324,7 +1478,8 @@ func (c *rfc) reader(name string) string {
 		return ".mapHas"
 	case "if true(has(R.m,P0)) {return [raw(R.m[P0]),lit:true]} else {return [nil,lit:false]}":
 		return ".mapRaw"
-	case "if true(has(R.m,P0)) {return [R.m[P0],lit:true]} else {return [nil,lit:false]}":
+	case "if true(has(R.m,P0)) {return [R.m[P0],lit:true]} else {return [nil,lit:false]}",
+		"return [R.m[P0],has(R.m,P0)]": // `v, ok := r.m[key]; return v, ok`: a missing key gives the zero Value, nil
 		return ".mapValue"
 	case "call#1 .Len(R.l); return [res#1]":
 		return ".listLen"
@@ -1490,7 +1645,7 @@ func blankErrBuffers(t *vtree) {
 		blankErrBuffers(t.then)
 		blankErrBuffers(t.next)
 	case "leaf":
-		if len(t.rets) == 2 && strings.HasPrefix(t.rets[1], "err#") {
+		if len(t.rets) == 2 && (strings.HasPrefix(t.rets[1], "err#") || strings.HasPrefix(t.rets[1], "ERR(")) {
 			t.rets[0] = "_"
 		}
 	}
@@ -1528,66 +1683,92 @@ func (c *rfc) marshal() string {
 	if skip == "" {
 		return unknown()
 	}
-	// the member
-	calls := map[string]string{} // res#k -> piece
-	cur := b.els
-	for cur != nil && cur.kind == "call" {
-		if cur.fn == "json.Marshal" && len(cur.args) == 1 {
-			switch cur.args[0] {
-			case K:
-				calls[fmt.Sprintf("res#%d", cur.id)] = ".key"
-			case M:
-				calls[fmt.Sprintf("res#%d", cur.id)] = ".cell"
+	// member reads one member's sequence of marshals and appends, and checks it strictly: the pieces after `skipFirst` of them,
+	// the buffer of the <continue> leaf
+	bad := false
+	member := func(start *vtree, skipFirst int) (pieces []string, parts []string, ok bool) {
+		calls := map[string]string{} // res#k -> piece
+		cur := start
+		for cur != nil && cur.kind == "call" {
+			if cur.fn == "json.Marshal" && len(cur.args) == 1 {
+				switch cur.args[0] {
+				case K:
+					calls[fmt.Sprintf("res#%d", cur.id)] = ".key"
+				case M:
+					calls[fmt.Sprintf("res#%d", cur.id)] = ".cell"
+				}
 			}
+			if cur.next == nil || cur.next.kind != "if" {
+				return nil, nil, false
+			}
+			cur = cur.next.then
 		}
-		if cur.next == nil || cur.next.kind != "if" {
-			return unknown()
+		if cur == nil || cur.kind != "leaf" || !eqStrs(cur.rets, []string{"<continue>"}) || len(cur.fields) != 1 {
+			return nil, nil, false
 		}
-		cur = cur.next.then
-	}
-	if cur == nil || cur.kind != "leaf" || !eqStrs(cur.rets, []string{"<continue>"}) || len(cur.fields) != 1 {
-		return unknown()
-	}
-	buf := cur.fields["v"+v]
-	pre := "cat(L" + n + ".v" + v + ","
-	if !strings.HasPrefix(buf, pre) || !strings.HasSuffix(buf, ")") {
-		return unknown()
-	}
-	var pieces []string
-	want := ""
-	k := 0
-	closeBraces := ""
-	for _, p := range splitTop(buf[len(pre) : len(buf)-1]) {
-		if piece, ok := calls[p]; ok {
-			k++
-			if p != fmt.Sprintf("res#%d", k) {
-				return unknown()
-			}
-			arg := K
-			if piece == ".cell" {
-				arg = M
-			}
-			want += fmt.Sprintf("call#%d json.Marshal(%s); if isnil(err#%d) {", k, arg, k)
-			closeBraces = fmt.Sprintf("} else {return [_,err#%d]}", k) + closeBraces
-			pieces = append(pieces, piece)
-		} else if strings.HasPrefix(p, "[lit:") && strings.HasSuffix(p, "]") {
-			if d, ok := litNat(p[1 : len(p)-1]); ok {
-				pieces = append(pieces, "(.byte "+d+")")
+		buf := cur.fields["v"+v]
+		pre := "cat(L" + n + ".v" + v + ","
+		if !strings.HasPrefix(buf, pre) || !strings.HasSuffix(buf, ")") {
+			return nil, nil, false
+		}
+		want := ""
+		k := 0
+		closeBraces := ""
+		parts = splitTop(buf[len(pre) : len(buf)-1])
+		for _, p := range parts {
+			if piece, ok := calls[p]; ok {
+				k++
+				if p != fmt.Sprintf("res#%d", k) {
+					return nil, nil, false
+				}
+				arg := K
+				if piece == ".cell" {
+					arg = M
+				}
+				want += fmt.Sprintf("call#%d json.Marshal(%s); if isnil(err#%d) {", k, arg, k)
+				closeBraces = fmt.Sprintf("} else {return [_,err#%d]}", k) + closeBraces
+				pieces = append(pieces, piece)
+			} else if strings.HasPrefix(p, "[lit:") && strings.HasSuffix(p, "]") {
+				if d, ok := litNat(p[1 : len(p)-1]); ok {
+					pieces = append(pieces, "(.byte "+d+")")
+				} else {
+					pieces = append(pieces, "(.other "+lstr(p)+")")
+					bad = true
+				}
 			} else {
 				pieces = append(pieces, "(.other "+lstr(p)+")")
-				c.unknown("MarshalJSON", t)
+				bad = true
 			}
-		} else {
-			pieces = append(pieces, "(.other "+lstr(p)+")")
-			c.unknown("MarshalJSON", t)
 		}
+		want += "return [<continue>] with {v" + v + "=" + buf + "}" + closeBraces
+		if start.String() != want || len(pieces) < skipFirst {
+			return nil, nil, false
+		}
+		return pieces[skipFirst:], parts, true
 	}
-	want += "return [<continue>] with {v" + v + "=" + buf + "}" + closeBraces
-	if b.els.String() != want {
+	B := "L" + n + "out.v" + v
+	// the separator in FRONT of every member but the first, the closing byte appended
+	sepRe := regexp.MustCompile(`^true\(gt\(len\(L` + n + `\.v` + v + `\),lit:(\d+)\)\)$`)
+	endRe := regexp.MustCompile(`^return \[cat\(` + regexp.QuoteMeta(B) + `,\[lit:(\d+)\]\),nil\]$`)
+	if m := sepRe.FindStringSubmatch(b.els.cond); b.els.kind == "if" && m != nil {
+		with, partsWith, ok1 := member(b.els.then, 1)
+		without, partsWithout, ok2 := member(b.els.els, 0)
+		e := endRe.FindStringSubmatch(t.next.String())
+		if ok1 && ok2 && e != nil && !bad && len(partsWith) == len(partsWithout)+1 && eqStrs(partsWith[1:], partsWithout) && eqStrs(with, without) {
+			if sep, ok := litNat(strings.TrimSuffix(strings.TrimPrefix(partsWith[0], "["), "]")); ok {
+				return fmt.Sprintf("(.separated [%s] %s %s %s [%s] %s)", strings.Join(opening, ", "), skip, m[1], sep, strings.Join(with, ", "), e[1])
+			}
+		}
 		return unknown()
 	}
+	pieces, _, ok := member(b.els, 0)
+	if !ok {
+		return unknown()
+	}
+	if bad {
+		c.unknown("MarshalJSON", t)
+	}
 	e := marshalEnd.FindStringSubmatch(t.next.String())
-	B := "L" + n + "out.v" + v
 	if e == nil || e[1] != B || e[3] != e[4] ||
 		t.next.String() != fmt.Sprintf("if true(gt(len(%s),lit:%s)) {return [put(%s,sub(len(%s),lit:1),lit:%s),nil]} else {return [cat(%s,[lit:%s]),nil]}", B, e[2], B, B, e[3], B, e[3]) {
 		return unknown()
@@ -1617,14 +1798,12 @@ func (c *rfc) unmarshal() string {
 		switch {
 		case tIsCall(cur, n, ".Token", "res#2") && tIsIf(cur.next, fmt.Sprintf("isnil(err#%d)", n)) && tIsLeaf(cur.next.els, fmt.Sprintf("err#%d", n)):
 			a := cur.next.then
-			if tIsIf(a, fmt.Sprintf("is(res#%d,json.Delim)", n)) && tIsLeaf(a.els, "ERR(nowrap)") && a.then != nil && a.then.kind == "if" && tIsLeaf(a.then.els, "ERR(nowrap)") {
-				pre := fmt.Sprintf("eq(as(res#%d,json.Delim),", n)
-				if strings.HasPrefix(a.then.cond, pre) {
-					if d, ok := constOf(a.then.cond[len(pre):len(a.then.cond)-1], "json.Delim"); ok {
-						steps = append(steps, ".openDelim "+d)
-						cur = a.then.then
-						continue
-					}
+			pre := fmt.Sprintf("delim(res#%d,", n)
+			if a != nil && a.kind == "if" && strings.HasPrefix(a.cond, pre) && tIsLeaf(a.els, "ERR(nowrap)") {
+				if d, ok := litNat("lit:" + a.cond[len(pre):len(a.cond)-1]); ok {
+					steps = append(steps, ".openDelim "+d)
+					cur = a.then
+					continue
 				}
 			}
 			return fail(cur)
@@ -1654,14 +1833,11 @@ func closingDelim(t *vtree, n int, dec, okLeaf string, errLeaf func(e string) st
 		return "", false
 	}
 	b := a.then
-	if !tIsIf(b, fmt.Sprintf("is(res#%d,json.Delim)", n)) || b.els.String() != errLeaf("ERR(nowrap)") || b.then == nil || b.then.kind != "if" {
+	pre := fmt.Sprintf("delim(res#%d,", n)
+	if b == nil || b.kind != "if" || !strings.HasPrefix(b.cond, pre) || b.then.String() != okLeaf || b.els.String() != errLeaf("ERR(nowrap)") {
 		return "", false
 	}
-	pre := fmt.Sprintf("eq(as(res#%d,json.Delim),", n)
-	if !strings.HasPrefix(b.then.cond, pre) || b.then.then.String() != okLeaf || b.then.els.String() != errLeaf("ERR(nowrap)") {
-		return "", false
-	}
-	return constOf(b.then.cond[len(pre):len(b.then.cond)-1], "json.Delim")
+	return litNat("lit:" + b.cond[len(pre):len(b.cond)-1])
 }
 
 func (c *rfc) parseObject() string {
@@ -1715,12 +1891,13 @@ var arrHdr = regexp.MustCompile(`^forever from \{v(\d+)=empty\(\[\]interface\{\}
 
 func (c *rfc) parseArray() string {
 	t := c.tree("parsearray")
+	blankErrBuffers(t) // what comes back next to an error — the items so far, or nil — is dropped by handledelim
 	pkg := c.rx.p.pkg.Name()
 	if t.kind == "loop" && t.then != nil && t.next != nil {
 		if h := arrHdr.FindStringSubmatch(t.cond); h != nil {
 			v, n := h[1], t.id
 			out := fmt.Sprintf("L%dout.v%s", n, v)
-			closing, ok := closingDelim(t.next, t.next.id, "P0", "return ["+out+",nil]", func(e string) string { return "return [" + out + "," + e + "]" })
+			closing, ok := closingDelim(t.next, t.next.id, "P0", "return ["+out+",nil]", func(e string) string { return "return [_," + e + "]" })
 			via := ""
 			if b := t.then; b.kind == "call" && b.next != nil && b.next.kind == "if" && b.next.then != nil && b.next.then.kind == "call" {
 				if in := b.next.then.next; in != nil && in.kind == "if" && in.then != nil && in.then.kind == "call" {
@@ -1729,8 +1906,8 @@ func (c *rfc) parseArray() string {
 			}
 			if ok && via != "" {
 				in := fmt.Sprintf("L%d.v%s", n, v)
-				want := fmt.Sprintf("loop#%d %s {call#1 .More(P0); if true(res#1) {call#2 .Token(P0); if isnil(err#2) {call#3 %s.%s(res#2,P0); if isnil(err#3) {return [<continue>] with {v%s=cat(%s,[res#3])}} else {return [%s,err#3]}} else {return [%s,err#2]}} else {return [<break>] with {}}}; %s",
-					n, t.cond, pkg, via, v, in, in, in, t.next.String())
+				want := fmt.Sprintf("loop#%d %s {call#1 .More(P0); if true(res#1) {call#2 .Token(P0); if isnil(err#2) {call#3 %s.%s(res#2,P0); if isnil(err#3) {return [<continue>] with {v%s=cat(%s,[res#3])}} else {return [_,err#3]}} else {return [_,err#2]}} else {return [<break>] with {}}}; %s",
+					n, t.cond, pkg, via, v, in, t.next.String())
 				if t.String() == want {
 					return fmt.Sprintf("(.whileMore %s %s)", lstr(via), closing)
 				}
@@ -1877,6 +2054,19 @@ func (c *rfc) mapTo() string {
 					mc = fmt.Sprintf("(.viaCast %s %s %s %s)", lstr(caster), lstr(can), lstr(setter), lstr(asserted))
 				}
 			}
+		case body.kind == "call" && body.id == 14 && eqStrs(body.args, []string{"res#9"}) && tIsIf(body.next, "true(res#14)") &&
+			body.next.then != nil && body.next.then.kind == "call" && strings.HasPrefix(body.next.then.fn, "cast.") && body.next.then.next != nil && body.next.then.next.kind == "call":
+			// the guard first, the cast under it (the cast has no effect: the same thing)
+			can, ok1 := methodName(body.fn)
+			caster := strings.TrimPrefix(body.next.then.fn, "cast.")
+			set := body.next.then.next
+			setter, ok2 := methodName(set.fn)
+			if ok1 && ok2 && can != "Kind" && len(set.args) == 2 && strings.HasPrefix(set.args[1], "assert(res#15,") {
+				asserted := set.args[1][len("assert(res#15,") : len(set.args[1])-1]
+				if bs == fmt.Sprintf("call#14 .%s(res#9); if true(res#14) {call#15 cast.%s(res#13); call#16 .%s(res#9,assert(res#15,%s)); %s} else {%s}", can, caster, setter, asserted, cont, cont) {
+					mc = fmt.Sprintf("(.guardThenCast %s %s %s %s)", lstr(caster), lstr(can), lstr(setter), lstr(asserted))
+				}
+			}
 		case tIsCall(body, 14, ".Kind", "res#9") && body.next != nil && body.next.kind == "if" && strings.HasPrefix(body.next.cond, "eq(") && strings.HasSuffix(body.next.cond, ",res#14)"):
 			kind, ok := constOf(body.next.cond[3:len(body.next.cond)-len(",res#14)")], "reflect.Kind")
 			in := body.next.then
@@ -1906,6 +2096,7 @@ func (c *rfc) mapTo() string {
 	if !tIsLeaf(cur, "<continue>") {
 		return unknown()
 	}
+	sort.Strings(cases) // the clauses list distinct dynamic types: their order says nothing
 	return fmt.Sprintf("(.fields %s %s %s %s [\n      %s])", ptr, str, lstr(key), lstr(lookup), strings.Join(cases, ",\n      "))
 }
 
